@@ -407,6 +407,45 @@ func main() {
 		o.Set("q.getGuard", "lsm/lsm.go:Get (closer.Add) vs lsm/lsm.go:Close (closer.Close)", b(guarded), shape, "false")
 	}
 
+	// ------------------------------------------------------------ lsm.SetBatch packing loop
+	{
+		sb := lsmf.Func("LSM.SetBatch")
+		a := "lsm/lsm.go:SetBatch"
+		fit, fitOK := "", false
+		guards := map[string]bool{}
+		alone := false
+		if sb != nil {
+			for _, c := range lsmf.Comparisons(sb.Body) {
+				c.X, c.Y = strings.ReplaceAll(c.X, " ", ""), strings.ReplaceAll(c.Y, " ", "")
+				switch {
+				case c.X == "used+est" && c.Y == "avail":
+					fit, fitOK = c.Op, true
+				case c.X == "est" && c.Y == "avail-used": // the same test with `used` moved over
+					fit, fitOK = c.Op, true
+				case strings.HasPrefix(c.X, "atomic.LoadInt64(&mt.walSize)+est") && c.Y == "lsm.option.MemTableSize":
+					guards[c.Op] = true
+				}
+			}
+			ast.Inspect(sb.Body, func(x ast.Node) bool {
+				if s, ok := x.(*ast.IfStmt); ok {
+					c := strings.ReplaceAll(lsmf.Src(s.Cond), " ", "")
+					if (strings.Contains(c, "used+est") || strings.Contains(c, "avail-used")) &&
+						strings.Contains(c, "i==start") && strings.Contains(c, "walSize)==0") {
+						alone = true
+					}
+				}
+				return true
+			})
+		}
+		o.Set("lsm.batchFitOp", a, fit, fitOK, "gt")
+		g := ""
+		for k := range guards {
+			g = k
+		}
+		o.Set("lsm.rotateGuardOp", a, g, len(guards) == 1, "gt")
+		o.Set("lsm.oversizeAlone", a, b(alone), sb != nil, "false")
+	}
+
 	// ------------------------------------------------------------ acquireItem: order of the exit loads
 	{
 		ai := dw.Func("commitQueue.acquireItem")
@@ -443,12 +482,14 @@ def cfg : AllCfg :=
            ackAfterApply := %s, pathOrderStd := %s, closeOrderStd := %s, enqChecksClosed := %s,
            enqFailKeepsRef := %s, getClosed := .%s },
     h := { exitOrder := .%s },
-    w := { getGuard := %s } }
+    w := { getGuard := %s },
+    p := { fitOp := .%s, guardOp := .%s, oversizeAlone := %s } }
 
 end NoKV.Generated.Queue
 `, f["q.tooBigCountOp"], f["q.tooBigSizeOp"], f["q.batchCountOp"], f["q.batchSizeOp"],
 		f["q.thrLoopChecksClosed"], f["q.closeReleasesThrottle"], f["q.singleWorker"], f["q.fifoPop"],
 		f["q.ackAfterApply"], f["q.pathOrderStd"], f["q.closeOrderStd"], f["q.enqChecksClosed"],
-		f["q.enqFailKeepsRef"], f["q.getClosed"], f["q.exitCheckOrder"], f["q.getGuard"])
+		f["q.enqFailKeepsRef"], f["q.getClosed"], f["q.exitCheckOrder"], f["q.getGuard"],
+		f["lsm.batchFitOp"], f["lsm.rotateGuardOp"], f["lsm.oversizeAlone"])
 	o.Write(*jsonOut, *leanOut, lean)
 }
